@@ -111,6 +111,7 @@ template <class C> struct Exec {
         std::set<int> texts; std::set<int> deps; int producer = -1;
         int path_origin = -1;  // kind of the last op that built or rewrote the path structure (parse/addbase/removebase/normalize with PATH)
         int host_origin = -1;  // same for the host (normalize with HOST)
+        bool survivor = false; // left behind by an in-place call that failed for lack of memory and kept in use by the caller (C11 pool)
         std::set<int> ever;    // every text buffer this object ever borrowed from (survives the ownership transfer: this is what source_loss kills)
     };
     struct QSlot {
@@ -485,7 +486,7 @@ template <class C> struct Exec {
             mark_dependents_stale(s);
             if (!free_slot(opi, s, 1, 1)) return false;
         }
-        us[s].state = S_EMPTY; us[s].owned = false; us[s].texts.clear(); us[s].deps.clear(); us[s].ever.clear();
+        us[s].state = S_EMPTY; us[s].owned = false; us[s].texts.clear(); us[s].deps.clear(); us[s].ever.clear(); us[s].survivor = false;
         return true;
     }
 
